@@ -320,3 +320,4 @@ pub fn sqrt_stub_f32(x: f32) -> f32 {
 pub fn mul_add_stub_f32(a: f32, b: f32, c: f32) -> f32 {
     a * b + c
 }
+
